@@ -56,6 +56,7 @@ TRUSTED_BASE = [
     "harness encoders harness/props/C20.py (labels -> rank in sorted order; places -> 3*s / 3*e+1 / 3*e+2; observables -> tok)",
     "hypergraph_to_bipartite (C16) is modelled only as far as C20 needs it: species sorted by label, one arc per (reaction, side, species) with role and stoich",
     "CPython dict / set / deque / itertools.combinations semantics",
+    "defaults of absent graph attributes (stoich -> 1, label -> node id, kind -> bipartite flag) are applied by the encoder; the Gallina arcs always carry a coefficient",
 ]
 ASSUMPTIONS = ["species labels do not start with '__ext__' / '__target__' (place names of the extended net would collide)",
                "stoichiometric coefficients are positive integers",
@@ -113,13 +114,24 @@ def _crn_input(case, H):
         return H
     import networkx as nx
     from synkit.CRN.Hypergraph.conversion import hypergraph_to_bipartite
-    G = hypergraph_to_bipartite(H, integer_ids=bool(case.get("int_ids", False)))
+    # "no_stoich": the converter's include_stoich=False form — no coefficient on any arc, every coefficient reads as 1
+    # (repo 25ebd6d: the predicates used to read a missing coefficient as 0 and ignored every arc)
+    if case.get("bare"):
+        # minimally annotated: node id = species name and no 'label' on species nodes (the label falls back to the node id),
+        # no 'kind' attribute (classification by the 'bipartite' flag)
+        G = hypergraph_to_bipartite(H, species_prefix=None, include_stoich=not case.get("no_stoich"))
+        for u, d in G.nodes(data=True):
+            if d.get("kind") == "species":
+                d.pop("label", None)
+            d.pop("kind", None)
+    else:
+        G = hypergraph_to_bipartite(H, integer_ids=bool(case.get("int_ids", False)), include_stoich=not case.get("no_stoich"))
     if case.get("shuffle") is not None:
         # the same graph with its nodes INSERTED in another order: species in a shuffled order, reactions interleaved; the
         # node ids of the integer export are two-digit from 10 nodes on and unrelated to the insertion order
-        sp = [u for u, d in G.nodes(data=True) if d.get("kind") == "species"]
-        rn = [u for u, d in G.nodes(data=True) if d.get("kind") == "reaction"]
-        assert [G.nodes[u]["label"] for u in sp] == sorted(G.nodes[u]["label"] for u in sp)
+        sp = [u for u, d in G.nodes(data=True) if d.get("bipartite") == 0]
+        rn = [u for u, d in G.nodes(data=True) if d.get("bipartite") == 1]
+        assert [G.nodes[u].get("label", u) for u in sp] == sorted(G.nodes[u].get("label", u) for u in sp)
         order = _species_insertion_order(case, len(sp))
         G2 = nx.DiGraph()
         seq_ = [sp[i] for i in order]
@@ -210,8 +222,15 @@ def _flow_setup(case):
         H = CRNHyperGraph()
         for eid, tail, head in case["edges"]:
             H.add_rxn({s: c for s, c in tail}, {s: c for s, c in head}, edge_id=eid)
-        v, e, f = hypergraph_to_pr_inputs(H, flow)
-        # hypergraph_to_pr_inputs defaults a missing flow to 1; the case always lists every edge
+        # hypergraph_to_pr_inputs defaults a missing flow to ONE (load_hypergraph_and_flow defaults it to zero): the case's flow is
+        # the effective one; "omit" lists edges (of flow 1) left out of the mapping handed over, "flow_none" hands over None
+        given = None if case.get("flow_none") else {k: x for k, x in flow.items() if k not in set(case.get("omit", []))}
+        if case.get("flow_none"):
+            v, e, f = hypergraph_to_pr_inputs(H) if len(case["edges"]) % 2 else hypergraph_to_pr_inputs(hg=H, flow=None)
+        elif len(case["edges"]) % 2:
+            v, e, f = hypergraph_to_pr_inputs(H, given)
+        else:
+            v, e, f = hypergraph_to_pr_inputs(hg=H, flow=given)
     else:
         v = list(case["vertices"])
         e = {eid: ({s: c for s, c in tail}, {s: c for s, c in head}) for eid, tail, head in case["edges"]}
@@ -1351,6 +1370,11 @@ def gen_random_nets(n, rng):
         if c["mode"] != "hg" and rng.random() < 0.6:
             c["shuffle"] = rng.randrange(10 ** 6)
             c["int_ids"] = rng.random() < 0.5
+        if c["mode"] != "hg" and rng.random() < 0.25:
+            c["no_stoich"] = True
+        if c["mode"] != "hg" and rng.random() < 0.2 and not any(x.startswith("R:") for x in _all_species(c)):
+            c["bare"] = True
+            c["int_ids"] = False
         nsp = len(_all_species(c))
         c["k"] = rng.randint(0, nsp + 1)
         nc = rng.randint(0, 7)
@@ -1563,10 +1587,16 @@ def gen_flows(n, rng, max_reach, n_big, big_reach):
             p = _measure(_perturb(rng, base), max_reach)
             if p is not None:
                 group.append(p)
-        if rng.random() < 0.25:
+        if rng.random() < 0.3:
             hgc = dict(base, via="hg", kind="flow-hg")
             if all(a or b for _, a, b in hgc["edges"]):
                 group.append(hgc)
+                ones = [e_ for e_, f_ in hgc["flow"] if f_ == 1]
+                if ones:                              # flows of 1 left to the default of hypergraph_to_pr_inputs
+                    group.append(dict(hgc, kind="flow-hg-default", omit=rng.sample(ones, rng.randint(1, len(ones)))))
+                allone = _measure(dict(hgc, kind="flow-hg-default", flow=[[e_, 1] for e_, _ in hgc["flow"]], flow_none=True), max_reach)
+                if allone is not None:
+                    group.append(allone)
         if rng.random() < 0.15:
             v = dict(base, kind="flow-vertices")
             vs = [s for s in base["vertices"] if rng.random() < 0.6] + (["Q"] if rng.random() < 0.5 else [])
@@ -1920,6 +1950,7 @@ def gen_cases(tier, rng):
             cases.append(dict(t="net", kind="net-textbook", species=[], iso=[], rxns=rx, mode=mode, k=2))
             if mode != "hg":                # the same graph with its species nodes inserted in another order / integer ids
                 cases.append(dict(t="net", kind="net-textbook", species=[], iso=[], rxns=rx, mode=mode, k=2, shuffle=7 + j, int_ids=bool(j % 2)))
+                cases.append(dict(t="net", kind="net-textbook", species=[], iso=[], rxns=rx, mode=mode, k=2, no_stoich=True))
     # A -> B -> C with the nodes inserted A, C, B (and every other insertion order of three species)
     for sh in range(6):
         cases.append(dict(t="net", kind="net-textbook", species=[], iso=[], rxns=[[[["A", 1]], [["B", 1]]], [[["B", 1]], [["C", 1]]]],
